@@ -288,7 +288,8 @@ def rule_R5(body, log):
 
 
 def rule_R4(body, log):
-    """`RECV.modify(|tables| BODY)` in tail position -> `{ RECV.modify_begin()?; let tables = RECV.tables_mut(); BODY }`"""
+    """`RECV.modify(|tables| BODY)` in tail position -> `{ RECV.modify_begin()?; let tables = RECV.tables_mut(); BODY }`
+    (`modify_continue` -> `modify_continue_begin`: the method name is kept, the two shells differ in whether a commit may happen)"""
     toks = tokenize(body)
     n = len(toks)
     assert toks[0][1] == '{'
@@ -296,7 +297,7 @@ def rule_R4(body, log):
     # find `.modify(`
     idx = None
     for i in range(n):
-        if toks[i][0] == 'id' and toks[i][1] == 'modify':
+        if toks[i][0] == 'id' and toks[i][1] in ('modify', 'modify_continue'):
             p = nontrivia(toks, i, -1)
             q = nontrivia(toks, i)
             if toks[p][1] == '.' and toks[q][1] == '(':
@@ -305,6 +306,7 @@ def rule_R4(body, log):
                 idx = i
     if idx is None:
         raise Undecided('R4: no .modify( call found')
+    meth = toks[idx][1]
     dot = nontrivia(toks, idx, -1)
     par = nontrivia(toks, idx)
     par_close = match_close(toks, par)
@@ -346,9 +348,9 @@ def rule_R4(body, log):
     inner = join(toks[b:last + 1])
     head = join(toks[:r + 1])
     lead = head[len(head.rstrip()):] if head.rstrip() != head else '\n        '
-    new = head.rstrip() + lead + '{ %s.modify_begin()?;\n        let %s = %s.tables_mut();\n        let __r = %s;\n        __r }\n    }' % (recv, param, recv, inner.strip())
+    new = head.rstrip() + lead + '{ %s.%s_begin()?;\n        let %s = %s.tables_mut();\n        let __r = %s;\n        __r }\n    }' % (recv, meth, param, recv, inner.strip())
     # note: `let __r = { BODY }; __r` keeps BODY's tail expression a tail expression of a block
-    log.append({'rule': 'R4', 'replaced': '%s.modify(|%s| ..)' % (recv, param), 'with': '%s.modify_begin()?; let %s = %s.tables_mut(); ..' % (recv, param, recv)})
+    log.append({'rule': 'R4', 'replaced': '%s.%s(|%s| ..)' % (recv, meth, param), 'with': '%s.%s_begin()?; let %s = %s.tables_mut(); ..' % (recv, meth, param, recv)})
     return new
 
 
